@@ -105,10 +105,18 @@ def plan(draw, spec, bundles, inline_state_cbs):
     by_first = {}
     for b in bundles:
         by_first[b["k"][0]] = b
+    # bundles of one event are all declared with from_.any() or all explicitly (expansion happens at class creation, after every
+    # explicit declaration: mixing the two would change the candidate order)
+    use_any = {}
+    for b in bundles:
+        if b["how"] == "any":
+            ev = spec["trans"][b["k"][0]]["events"][0]
+            if ev not in use_any:
+                use_any[ev] = draw(st.integers(0, 9)) < 7
     k = 0
     while k < n:
         t = spec["trans"][k]
-        if k in by_first and draw(st.integers(0, 9)) < 7:
+        if k in by_first and (use_any[t["events"][0]] if by_first[k]["how"] == "any" else draw(st.integers(0, 9)) < 7):
             b = by_first[k]
             if b["how"] == "any":
                 trans.append({"k": b["k"], "how": "any"})
@@ -127,7 +135,7 @@ def plan(draw, spec, bundles, inline_state_cbs):
             d["via_from"] = draw(st.booleans())
         trans.append(d)
         k += 1
-    sstyles = ["attr", "attr", "dict"] + ([] if inline_state_cbs else ["enum"])
+    sstyles = ["attr", "attr", "dict"] + ([] if inline_state_cbs else ["enum", "enum"])
     return {"states": draw(st.sampled_from(sstyles)), "trans": trans, "inherit": draw(st.integers(0, 3)) == 0, "assoc": draw(st.sampled_from(["left", "right"]))}
 
 
@@ -138,6 +146,20 @@ def cases(draw, tier):
     spec = draw(gen.machine_spec(max_states=4, max_extra=5, providers=provs, async_mode=async_mode, sends=draw(st.sampled_from([False, False, True])),
                                  attach=("conv", "name", "func")))
     bundles = draw(gen.add_bundle(spec))
+    vkind = draw(st.sampled_from(["ids", "ids", "int", "intenum-like", "str"]))
+    if vkind != "ids":
+        from .c10 import values_for
+
+        vals = values_for("int" if vkind == "intenum-like" else vkind, len(spec["states"]), draw)
+        for s_, v in zip(spec["states"], vals):  # (state values incl. falsy ones: from_enum must keep flags of a 0-valued member)
+            s_["value"] = v
+        finals_ = [s_ for s_ in spec["states"] if s_["final"]]
+        if vkind == "intenum-like" and finals_:
+            # the zero value sits on a final state
+            for s_ in spec["states"]:
+                if s_["value"] == 0:
+                    s_["value"] = finals_[0]["value"]
+            finals_[0]["value"] = 0
     inline_state_cbs = any(c["scope"][0] == "state" and c["attach"] != "conv" for c in spec["cbs"])
     is_async = gen.is_async_spec(spec)
     cfg = {"rtc": True if is_async else draw(st.sampled_from([True, True, False])), "allow": draw(st.booleans()), "driver": "sync", "activate": True}
